@@ -29,6 +29,7 @@ import (
 	"time"
 
 	"git.sr.ht/~rockorager/vaxis"
+	"git.sr.ht/~rockorager/vaxis/ansi"
 	"verifharness/fakeconsole"
 	"verifharness/gen"
 	"verifharness/hx"
@@ -562,7 +563,13 @@ type tty struct {
 func (t *tty) Close() error { atomic.AddInt32(&t.closes, 1); return nil }
 
 func (t *tty) Write(p []byte) (int, error) {
-	if atomic.LoadInt32(&t.armed) == 0 || !bytes.Contains(p, []byte("\x1b[c")) {
+	if !bytes.Contains(p, []byte("\x1b[c")) {
+		return t.Console.Write(p)
+	}
+	if c, _ := curCtl.Load().(*ctl); c != nil {
+		defer c.at("suspend.da1", true) // the DA1 query of Suspend has been written
+	}
+	if atomic.LoadInt32(&t.armed) == 0 {
 		return t.Console.Write(p)
 	}
 	switch atomic.LoadInt32(&t.gate) {
@@ -709,10 +716,20 @@ type ctl struct {
 
 var ctls sync.Map // *vaxis.Vaxis -> *ctl
 
+// curCtl is the controller of the forced case that is running (cases run one after the other);
+// yield points that do not know their Vaxis (the parser's, the console's) go to it, and only for
+// goroutines it already knows.
+var curCtl atomic.Value // *ctl (nil pointer when none)
+
 func init() {
 	vaxis.VerifC10Yield = func(vx *vaxis.Vaxis, point string) {
 		if c, ok := ctls.Load(vx); ok {
-			c.(*ctl).at(point)
+			c.(*ctl).at(point, false)
+		}
+	}
+	ansi.VerifC10Yield = func(p *ansi.Parser, point string) {
+		if c, _ := curCtl.Load().(*ctl); c != nil {
+			c.at(point, true)
 		}
 	}
 }
@@ -755,10 +772,14 @@ func (c *ctl) holdAt(key string) (chan struct{}, func()) {
 	return r, func() { close(h) }
 }
 
-func (c *ctl) at(point string) {
+func (c *ctl) at(point string, knownOnly bool) {
 	id, st := goid()
 	c.mu.Lock()
 	role, ok := c.roles[id]
+	if !ok && knownOnly {
+		c.mu.Unlock()
+		return
+	}
 	if !ok {
 		role = "X"
 		if strings.Contains(st, "openTty.func1") {
@@ -860,7 +881,9 @@ func forcedCase(kind string, q, keys int) string {
 	}
 	c := newCtl()
 	ctls.Store(vx, c)
+	curCtl.Store(c)
 	defer ctls.Delete(vx)
+	defer curCtl.Store((*ctl)(nil))
 	closer := func(role string, done chan struct{}) {
 		go func() {
 			defer close(done)
